@@ -175,4 +175,32 @@ func init() {
 		Assume:   []string{"a valid extended root pointer has both checksums valid; decoys have a bad (extended) checksum", "the length field of a table is never corrupted (reading beyond firmware memory is outside the simulation)", "output order of the table summary is not compared (Go map iteration)"},
 		Required: []string{"c14.no_valid_root_pointer", "c14.decoy_before_real_root_pointer", "c14.corrupted_table_reported_and_skipped", "c14.enumeration_continued_past_corrupted_table", "c14.map_failure_propagated", "c14.xsdt_followed", "c14.rsdt_followed", "c14.dsdt_registered_mode_1", "c14.corrupted_fadt_dsdt_not_followed", "c14.root_pointer_corrupted"},
 	})
+
+	// ------------------------------------------------------------------ TTY (C17 C18)
+	ttyAnchors := []string{"kernel/device/tty/vt.go", "kernel/device/tty/device.go", "kernel/device/video/console/vga_text.go", "kernel/device/video/console/vesa_fb.go", "kernel/device/video/console/device.go"}
+	addEngine(&engineSpec{
+		Name: "tty", PkgDir: "device/tty",
+		Files: []overlayFile{
+			simkitFor("device/tty", "tty"),
+			{Src: "engines/tty/harness.go.txt", Dst: "device/tty/zz_verif_tty_test.go", Pkg: "tty"},
+			{Src: "engines/shims/console_shim.go.txt", Dst: "device/video/console/zz_verif_shim.go", Pkg: "console"},
+		},
+		Anchors: ttyAnchors,
+		Real:    []string{"tty.VT (NewVT, AttachTo, Write, WriteByte, SetCursorPosition, SetState)", "console.VgaTextConsole on a host text buffer obtained through its real DriverInit", "console.VesaFbConsole 8/15/16/24/32 bpp with each shipped font, with and without the shipped logos, on a host framebuffer obtained through its real DriverInit"},
+		Stub:    []string{"reference cell-grid console (asserts every call stays inside the grid)", "mapRegionFn -> host arena with inaccessible guard pages; portWriteByteFn -> no-op", "independent glyph/colour renderer used as the oracle for framebuffer pixels"},
+	})
+	addProp(&propSpec{
+		ID: "C17", Engine: "tty", Level: "exploration",
+		Subs: []subCheck{{Name: "C17", QuickRuns: 40000, QuickMs: 40000, ThoroughRuns: 4000000, ThoroughMs: 500000}},
+		Rule: "one evaluation = one seeded history (up to 120 operations from 1-4 writers: Write of chunks biased toward \\n \\r \\b \\t, printable runs long enough to wrap, bursts of line feeds that exhaust the scrollback, arbitrary bytes; WriteByte; SetCursorPosition with arbitrary 32-bit values; SetState) on a terminal attached to a reference console of geometry 1..132 x 1..50 (1xN, Nx1, 1x1 included), scrollback 0..100, tab width 0..8; after every operation the cursor, the WHOLE terminal buffer (scrollback included) and the viewport origin are compared with a reference terminal written from the statement; a panic (index outside the buffer) is a violation. Non-trivial = at least 5 operations with at least one wrap, viewport advance or scroll; distinct = hash of (geometry, final buffer sample, cursor).",
+		Assume:   []string{"colours are always the console's defaults (the terminal has no API to change them)"},
+		Required: []string{"tty.three_wraps", "tty.viewport_advanced_through_scrollback", "tty.buffer_scrolled", "tty.buffer_scrolled_with_scrollback", "tty.one_column_or_one_row", "tty.activation"},
+	})
+	addProp(&propSpec{
+		ID: "C18", Engine: "tty", Level: "exploration",
+		Subs: []subCheck{{Name: "C18", QuickRuns: 12000, QuickMs: 45000, ThoroughRuns: 1200000, ThoroughMs: 600000}},
+		Rule: "one evaluation = one seeded history as in C17 with activate/deactivate interleaved, on one of three consoles: the reference cell grid, the real text-mode console (any size) or the real framebuffer console (depth 8/15/16/24/32, seeded pitch >= row bytes, two colour-mask layouts, each shipped font, logo present or absent, leftover right columns and bottom rows). While active, after every operation every console cell must equal the reference viewport cell (text cells decoded; framebuffer cells compared pixel by pixel with an independent glyph/colour renderer) and every byte outside the cell grid must keep the value it had when the terminal was attached; while inactive the console memory must be byte-identical to what it was at deactivation; activation must re-establish equality. Non-trivial / distinct as in C17 (hash includes console kind and depth).",
+		Assume:   []string{"everything outside the grid except the logo is initialised to one uniform value: the real scroll moves whole rows including padding and leftover columns, moving equal bytes is invisible; whether it should touch them is C19's question, which is not claimed", "only the in-range calls a terminal makes are exercised on the real consoles"},
+		Required: []string{"tty.console_kind_0", "tty.console_kind_1", "tty.console_kind_2", "tty.fb_8bpp", "tty.fb_15bpp", "tty.fb_16bpp", "tty.fb_24bpp", "tty.fb_32bpp", "tty.fb_with_logo", "tty.activation_after_writes_while_inactive", "tty.buffer_scrolled", "tty.viewport_advanced_through_scrollback"},
+	})
 }
